@@ -24,9 +24,10 @@ RuleConds == {CId(n_sel), CSel("1", <<115,101,108,42>>), CSel("all", S_them), CB
 FilterConds == {CId(n_sel), CNot(CId(n_sel)), CSel("1", S_them), CSel("all", <<115,101,42>>), CSel("any", <<42,120>>),
                 CBin("cand", CId(n_And), CNot(CId(n_1x))), CNot(CSel("1", <<110,111,116,42>>))}
 cat1 == <<99,49>> cat2 == <<99,50>> prod1 == <<112,49>> prod2 == <<112,50>> svc1 == <<115,49>>
-Ls(c, p, s) == [cat |-> c, prod |-> p, svc |-> s]
+Ls(c, p, s) == [cat |-> c, prod |-> p, svc |-> s, def |-> <<>>]
+LsD(c, p, s, d) == [cat |-> c, prod |-> p, svc |-> s, def |-> d]      \* with a definition: a note for the reader, no part of the matching
 RuleLs == Ls(cat1, prod1, svc1)
-FilterLss == {Ls(cat1, <<>>, <<>>), Ls(<<>>, prod1, <<>>), Ls(cat1, prod1, svc1), Ls(cat2, <<>>, <<>>), Ls(cat1, prod2, <<>>), Ls(<<>>, <<>>, svc1)}
+FilterLss == {LsD(cat1, <<>>, <<>>, <<110,111,116,101>>), LsD(cat1, prod1, svc1, <<110,111,116,101>>), Ls(cat1, <<>>, <<>>), Ls(<<>>, prod1, <<>>), Ls(cat1, prod1, svc1), Ls(cat2, <<>>, <<>>), Ls(cat1, prod2, <<>>), Ls(<<>>, <<>>, svc1)}
 Uid(k) == <<48,48,48,48,48,48,48,48,45,48,48,48,48,45,52,48,48,48,45,56,48,48,48,45,48,48,48,48,48,48,48,48,48,48,48,48 + k>>
 r1name == <<114,49>> r2name == <<114,50>>
 RuleListKinds == {"name", "id", "any", "empty", "other"}
